@@ -2,10 +2,34 @@
 
 package did
 
+import "github.com/multiformats/go-multicodec"
+
 // VerifDID builds a DID value directly (no key material): an Ed25519 code and
 // three identifier bytes of which the last one is given. Authorisation logic
 // only compares DIDs for equality, so 256 distinct principals cover every
 // equality pattern of the roles in a bounded chain.
 func VerifDID(b byte) DID {
 	return DID{code: Ed25519, bytes: string([]byte{0xed, 0x01, b})}
+}
+
+// VerifDIDOfSize builds the DID of a key of the given algorithm whose key
+// material has n (arbitrary, fixed) bytes: the sizes are what FromPubKey emits.
+func VerifDIDOfSize(which int) DID {
+	codes := []struct {
+		code uint64
+		n    int
+	}{{uint64(Ed25519), 32}, {uint64(Secp256k1), 33}, {uint64(P256), 33}, {uint64(P384), 49}, {uint64(P521), 67}, {uint64(RSA), 270}, {uint64(RSA), 398}, {uint64(RSA), 526}}
+	c := codes[which]
+	var b []byte
+	for v := c.code; ; v >>= 7 {
+		if v < 0x80 {
+			b = append(b, byte(v))
+			break
+		}
+		b = append(b, byte(v)|0x80)
+	}
+	for i := 0; i < c.n; i++ {
+		b = append(b, byte(i*29+7))
+	}
+	return DID{code: multicodec.Code(c.code), bytes: string(b)}
 }
